@@ -1084,6 +1084,78 @@ func (c *Ctx) rulesR5hist2() {
 						good = true
 					}
 				}
+				// normalised by a private helper of the constructor that returns its
+				// own normalised local
+				if !good {
+					var fromHelper func(v ssa.Value, d int) bool
+					fromHelper = func(v ssa.Value, d int) bool {
+						if d > 4 {
+							return false
+						}
+						var call *ssa.Call
+						idx := 0
+						switch x := v.(type) {
+						case *ssa.Extract:
+							call, _ = x.Tuple.(*ssa.Call)
+							idx = x.Index
+						case *ssa.Call:
+							call = x
+						case *ssa.UnOp:
+							if al2, ok := x.X.(*ssa.Alloc); ok && al2.Referrers() != nil {
+								for _, r := range *al2.Referrers() {
+									if st, ok := r.(*ssa.Store); ok && st.Addr == ssa.Value(al2) && fromHelper(st.Val, d+1) {
+										return true
+									}
+								}
+							}
+							return false
+						}
+						if call == nil {
+							return false
+						}
+						cal := call.Call.StaticCallee()
+						if cal == nil || len(cal.Blocks) == 0 || !c.hostedBy(cal, f) {
+							return false
+						}
+						var hnorm []*ssa.Alloc
+						for _, w := range writesOfFieldIn(cal, fTS) {
+							if st, ok := w.Instr.(*ssa.Store); ok {
+								if a2 := rootAlloc(st.Addr); a2 != nil {
+									hnorm = append(hnorm, a2)
+								}
+							}
+						}
+						okAll := len(returnsOf(cal)) > 0 && len(hnorm) > 0
+						for _, r := range returnsOf(cal) {
+							if idx >= len(retVals(r)) {
+								okAll = false
+								continue
+							}
+							ra := rootAlloc(retVals(r)[idx])
+							one := false
+							for _, x := range hnorm {
+								if x == ra {
+									one = true
+								}
+							}
+							if !one {
+								okAll = false
+							}
+						}
+						return okAll
+					}
+					if fromHelper(arg, 0) {
+						good = true
+						norm = append(norm, nil)
+					} else if al != nil && al.Referrers() != nil {
+						for _, r := range *al.Referrers() {
+							if st, ok := r.(*ssa.Store); ok && st.Addr == ssa.Value(al) && fromHelper(st.Val, 0) {
+								good = true
+								norm = append(norm, nil)
+							}
+						}
+					}
+				}
 				c.check(good && len(norm) > 0, "C17.cfg", funcKey(f)+": NewBaseMemory receives the normalised config", s.Pos(),
 					"the config passed to NewBaseMemory is "+render(arg)+", not the local copy whose TrackedStates was extended and parsed")
 			}
